@@ -1,8 +1,8 @@
 (* Extraction of the derive-contract model for the C16 correspondence check (ExtrOcamlBasic only:
    bool/option/list/prod/unit/sumbool mapped to OCaml's; numbers stay Coq's inductive
    positive/N/Z; no Extract Constant). *)
-From Aldrin Require Import Derive.Ty Derive.TDe Derive.TSer Derive.Conforms.
+From Aldrin Require Import Derive.Ty Derive.TDe Derive.TSer Derive.Conforms Derive.Evolve.
 Require Extraction ExtrOcamlBasic.
 Extraction Language OCaml.
 Extraction "derive_model.ml" tde_top tser_top tde_value conforms norm typed de_as_value serialize
-  N.of_nat N.to_nat lenN.
+  evolves evolves_keeping all_fallback wf_ty N.of_nat N.to_nat lenN.
